@@ -78,17 +78,66 @@ std::string op_str(const OpRec& o) {
 }
 
 // ---- hash functors ---------------------------------------------------------------------------------------------
+// non-trivially movable key: like std::string, a moved-from key no longer compares equal to its old value
+struct NKey {
+  int k = -1;
+  uint64_t tag = 0;
+  static uint64_t chk(int v) { return (uint64_t)(uint32_t)v * 0x9e3779b97f4a7c15ull + 99; }
+  NKey() = default;
+  explicit NKey(int v) : k(v), tag(chk(v)) {}
+  NKey(const NKey& o) : k(o.k), tag(o.tag) {}
+  NKey(NKey&& o) noexcept : k(o.k), tag(o.tag) {
+    o.k = -1;
+    o.tag = 0;
+  }
+  NKey& operator=(const NKey& o) {
+    k = o.k;
+    tag = o.tag;
+    return *this;
+  }
+  NKey& operator=(NKey&& o) noexcept {
+    k = o.k;
+    tag = o.tag;
+    if (&o != this) {
+      o.k = -1;
+      o.tag = 0;
+    }
+    return *this;
+  }
+  explicit operator int() const { return tag == chk(k) ? k : -999; }
+  friend bool operator==(const NKey& a, const NKey& b) { return a.k == b.k; }
+  friend bool operator!=(const NKey& a, const NKey& b) { return a.k != b.k; }
+  friend bool operator<(const NKey& a, const NKey& b) { return a.k < b.k; }
+  friend bool operator<=(const NKey& a, const NKey& b) { return a.k <= b.k; }
+  friend bool operator>(const NKey& a, const NKey& b) { return a.k > b.k; }
+  friend bool operator>=(const NKey& a, const NKey& b) { return a.k >= b.k; }
+};
+inline int key_int(int k) { return k; }
+inline int key_int(const NKey& k) { return k.k; }
+
 struct HashId {
-  size_t operator()(int k) const noexcept { return (size_t)k; }
+  template <class K>
+  size_t operator()(const K& k) const noexcept {
+    return (size_t)key_int(k);
+  }
 };
 struct HashConst {
-  size_t operator()(int) const noexcept { return 7; }
+  template <class K>
+  size_t operator()(const K&) const noexcept {
+    return 7;
+  }
 };
 struct HashRev { // hash order is the reverse of key order
-  size_t operator()(int k) const noexcept { return (size_t)(1000 - k); }
+  template <class K>
+  size_t operator()(const K& k) const noexcept {
+    return (size_t)(1000 - key_int(k));
+  }
 };
 struct HashTwo {
-  size_t operator()(int k) const noexcept { return (size_t)(k % 2); }
+  template <class K>
+  size_t operator()(const K& k) const noexcept {
+    return (size_t)(key_int(k) % 2);
+  }
 };
 
 // ---- adapters --------------------------------------------------------------------------------------------------
@@ -197,46 +246,49 @@ struct SetAd {
 template <class C>
 struct MapAd {
   static constexpr bool is_set = false;
+  using K = std::remove_const_t<typename C::value_type::first_type>;
+  static K mk(int k) { return K(k); }
+  static int ki(const K& k) { return (int)k; }
   C c;
   void exec(const POp& p, OpRec& o) {
     switch (p.kind) {
-    case H_EMPLACE: o.r = c.emplace(p.key, p.value); break;
+    case H_EMPLACE: o.r = c.emplace(mk(p.key), p.value); break;
     case H_EMPLACE_OR_GET: {
-      auto res = c.emplace_or_get(p.key, p.value);
+      auto res = c.emplace_or_get(mk(p.key), p.value);
       o.r = res.second;
       o.r2 = res.first->second;
-      if (res.first->first != p.key)
+      if (ki(res.first->first) != p.key)
         o.r2 = -999;
       break;
     }
     case H_GET_OR_EMPLACE: {
-      auto res = c.get_or_emplace(p.key, p.value);
+      auto res = c.get_or_emplace(mk(p.key), p.value);
       o.r = res.second;
       o.r2 = res.first->second;
-      if (res.first->first != p.key)
+      if (ki(res.first->first) != p.key)
         o.r2 = -999;
       break;
     }
     case H_GET_OR_EMPLACE_LAZY: {
       int calls = 0;
       int64_t v = p.value;
-      auto res = c.get_or_emplace_lazy(p.key, [&calls, v]() {
+      auto res = c.get_or_emplace_lazy(mk(p.key), [&calls, v]() {
         ++calls;
         return v;
       });
       o.r = res.second;
       o.r2 = res.first->second;
-      if (res.first->first != p.key || calls > 1 || (o.r && calls != 1))
+      if (ki(res.first->first) != p.key || calls > 1 || (o.r && calls != 1))
         o.r2 = -997;
       break;
     }
-    case H_ERASE: o.r = c.erase(p.key); break;
+    case H_ERASE: o.r = c.erase(mk(p.key)); break;
     case H_FIND_ERASE_IT: {
-      auto it = c.find(p.key);
+      auto it = c.find(mk(p.key));
       o.r = it != c.end();
       if (o.r) {
         o.b = it->second;
-        if (it->first != p.key)
+        if (ki(it->first) != p.key)
           o.r2 = -999;
         auto nx = c.erase(std::move(it));
         (void)nx;
@@ -244,18 +296,18 @@ struct MapAd {
       break;
     }
     case H_FIND: {
-      auto it = c.find(p.key);
+      auto it = c.find(mk(p.key));
       o.r = it != c.end();
       if (o.r) {
         o.r2 = it->second;
-        if (it->first != p.key)
+        if (ki(it->first) != p.key)
           o.r2 = -999;
       }
       break;
     }
-    case H_CONTAINS: o.r = c.contains(p.key); break;
+    case H_CONTAINS: o.r = c.contains(mk(p.key)); break;
     case H_INDEX: {
-      auto acc = c[p.key];
+      auto acc = c[mk(p.key)];
       o.r2 = *acc;
       break;
     }
@@ -264,14 +316,14 @@ struct MapAd {
   template <class F>
   void iterate(F f) {
     for (auto it = c.begin(); it != c.end(); ++it)
-      f(it->first, it->second);
+      f(ki(it->first), it->second);
   }
   void traverse(Traversal& tr, int erase_at, int variant, const Recorder& rec, int tid) {
     tr.start = xrt::stamp();
     int n = 0;
     auto it = c.begin();
     while (it != c.end()) {
-      int k = it->first;
+      int k = ki(it->first);
       int64_t v = it->second;
       tr.yields.push_back({k, v, xrt::stamp()});
       if (n == erase_at) {
@@ -287,7 +339,7 @@ struct MapAd {
       } else if (variant == 1) {
         auto copy = it;
         ++it;
-        if (copy->first != k || copy->second != v)
+        if (ki(copy->first) != k || copy->second != v)
           tr.error = "copied iterator changed its element";
       } else if (variant == 2) {
         it++;
@@ -645,6 +697,8 @@ void reg(const std::string& name) {
 }
 template <size_t B, class H, bool M>
 using Map = xenium::harris_michael_hash_map<int, int64_t, xp::reclaimer<R>, xp::buckets<B>, xp::hash<H>, xp::memoize_hash<M>>;
+template <size_t B, class H, bool M>
+using NMap = xenium::harris_michael_hash_map<NKey, int64_t, xp::reclaimer<R>, xp::buckets<B>, xp::hash<H>, xp::memoize_hash<M>>;
 } // namespace
 
 int main(int argc, char** argv) {
@@ -657,6 +711,8 @@ int main(int argc, char** argv) {
   reg<MapAd<Map<2, HashConst, true>>>("map_b2_const_m1");
   reg<MapAd<Map<4, HashTwo, false>>>("map_b4_two_m0");
   reg<MapAd<Map<2, HashId, true>>>("map_b2_id_m1");
+  reg<MapAd<NMap<1, HashId, false>>>("map_nk_b1_id_m0");
+  reg<MapAd<NMap<2, HashConst, true>>>("map_nk_b2_const_m1");
   static std::string name = std::string("harris.") + xv::RNAME;
   ScenarioDef def;
   def.name = name.c_str();
